@@ -447,6 +447,66 @@ Section ComputedSpecs.
       replace (is_base PFontSize) with true by reflexivity. exact Hfs.
   Qed.
 
+  (* line-height at the level of `computed` (CSS 2.1 10.8.1): normal and numbers are kept, a
+     percentage becomes the absolute length (that fraction of the element's own computed font
+     size), lengths become absolute *)
+  Theorem line_height_computed n nd v s q u (fs rfs : Q) :
+    node_at t n = Some nd -> n_kind nd = KElem ->
+    effective nd PLineHeight = Some (CExplicit v) ->
+    v = VDim s q u -> (s = "" \/ s = "normal")%string -> uses_metrics u = false -> u < 256 ->
+    (exists sf uf, comp n PFontSize = Ok (VDim sf fs uf)) ->
+    match n_parent nd with
+    | Some _ => exists sr ur, comp 0 PFontSize = Ok (VDim sr rfs ur)
+    | None => rfs = 16%Q
+    end ->
+    exists r, comp n PLineHeight = Ok r /\ value_eq r (spec_line_height fs rfs v).
+  Proof.
+    intros En Ek Heff Hv Hs Hm Hu Hfs Hrfs.
+    rewrite (defaulting_equations exactQ t WF n nd PLineHeight En Ek eq_refl ltac:(discriminate)).
+    unfold defaulted. rewrite Heff. unfold compute_value, compute.
+    replace (computer_of PLineHeight) with KLineHeight by reflexivity.
+    assert (modelled (has_metrics nd) KLineHeight v = true) as ->
+      by (subst v; cbn [modelled]; unfold unit_ok; rewrite Hm; apply orb_true_r).
+    rewrite run_pure_resolve.
+    apply (line_height_spec (env_with (n_metrics nd) (ctx_env exactQ t n nd PLineHeight)) v fs rfs s q u Hv Hs Hm Hu);
+      cbn [env_with].
+    - unfold ctx_env. cbn [pure_env]. rewrite (cap_rootfs_cases n nd En).
+      destruct (n_parent nd) as [j|]; [exact Hrfs|]. subst rfs. eauto.
+    - unfold ctx_env. cbn [pure_env]. unfold own_env.
+      replace (is_base PLineHeight) with false by reflexivity.
+      replace (is_base PFontSize) with true by reflexivity. exact Hfs.
+  Qed.
+
+  (* the percentage case spelled out: the computed value is a length in px, not a factor *)
+  Corollary line_height_percent_computed n nd q (fs : Q) :
+    node_at t n = Some nd -> n_kind nd = KElem ->
+    effective nd PLineHeight = Some (CExplicit (VDim "" q U_Perc)) ->
+    (exists sf uf, comp n PFontSize = Ok (VDim sf fs uf)) ->
+    (exists sr rfs ur, comp 0 PFontSize = Ok (VDim sr rfs ur)) ->
+    exists x, comp n PLineHeight = Ok (VDim "" x U_Px) /\ x == q / 100 * fs.
+  Proof.
+    intros En Ek Heff Hfs (sr & rfs & ur & Hr).
+    destruct (line_height_computed n nd (VDim "" q U_Perc) "" q U_Perc fs
+                (match n_parent nd with Some _ => rfs | None => 16%Q end) En Ek Heff eq_refl
+                (or_introl eq_refl) eq_refl ltac:(reflexivity) Hfs) as (r & Er & Hv).
+    { destruct (n_parent nd); [eauto | reflexivity]. }
+    cbn in Hv. apply value_eq_dim_inv in Hv. destruct Hv as (x & -> & Hx). eauto.
+  Qed.
+
+  (* ... and what a descendant without declaration of its own inherits is that length,
+     whatever its own font size *)
+  Corollary line_height_inherited n nd j :
+    node_at t n = Some nd -> n_kind nd = KElem ->
+    effective nd PLineHeight = None -> n_parent nd = Some j ->
+    comp n PLineHeight = comp j PLineHeight.
+  Proof.
+    intros En Ek Heff Ep.
+    rewrite (defaulting_equations exactQ t WF n nd PLineHeight En Ek eq_refl ltac:(discriminate)).
+    unfold defaulted. rewrite Heff.
+    replace (inherited PLineHeight) with true by reflexivity.
+    unfold inherited_value. rewrite Ep. reflexivity.
+  Qed.
+
   (* lengths in ex / ch on the same properties: x-height / advance of "0" of the font the
      element's style selects (recorded metrics), scaled by the element's own computed font
      size -- whatever other elements, documents or units were computed before *)
@@ -541,3 +601,31 @@ Section ComputedSpecs.
     destruct crop; vm_compute; reflexivity.
   Qed.
 End ComputedSpecs.
+
+(* vertical-align percentages (exact instance): the fraction of the element's own used line
+   height; on an element whose font size is 0 the implementation has no strut and answers 0 *)
+Lemma valign_percent_spec q fs lh x :
+  valign_percent exactQ q fs lh = Some x ->
+  (fs == 0 /\ x == 0) \/
+  (~ fs == 0 /\ exists y, spec_vertical_align_percent q fs lh = Some y /\ x == y).
+Proof.
+  unfold valign_percent, spec_vertical_align_percent, spec_used_line_height, cst.
+  destruct (Qeq_bool fs 0) eqn:E0.
+  - intros [= <-]. left. split; [now apply Qeq_bool_iff | reflexivity].
+  - apply Qeq_bool_false_neq in E0. intros H. right. split; [exact E0|].
+    destruct lh; try discriminate.
+    all: try (destruct (String.eqb _ "normal"); [discriminate|]).
+    all: try (destruct (_ =? U_Scalar); injection H as <-; eexists; (split; [reflexivity|]); cbn; field).
+Qed.
+
+(* and the implementation leaves the font's own line height (`normal`) alone: outside
+   font size 0 the model is undefined exactly where the specification is *)
+Lemma valign_percent_defined q fs lh :
+  ~ fs == 0 ->
+  (valign_percent exactQ q fs lh = None <-> spec_vertical_align_percent q fs lh = None).
+Proof.
+  intros Hf. unfold valign_percent, spec_vertical_align_percent, spec_used_line_height.
+  destruct (Qeq_bool fs 0) eqn:E0; [apply Qeq_bool_iff in E0; contradiction|].
+  destruct lh; try tauto.
+  all: try (destruct (String.eqb _ "normal"); [tauto|]; destruct (_ =? U_Scalar); split; discriminate).
+Qed.
